@@ -11,6 +11,8 @@ SOURCES = [SRC]
 PRELUDE = ["core.rs", "spaces.rs"]
 SERVES = ["C10", "C11", "C12", "C04"]
 FUNCTIONS = [SRC + "::RealVectorStateSpace::" + f for f in ("new", "interpolate", "enforce_bounds", "satisfies_bounds", "sample_uniform")]
+# functions whose contract pins an exact float expression (see check.py: a failure counts only with a concrete failing input)
+PROXY_FUNCTIONS = ["interpolate", "satisfies_bounds"]
 TRUSTED = ["RealVectorStateSpace::distance, get_maximum_extent and get_longest_valid_segment_length (no listed property constrains the resolution of R^n itself) are external_body in this unit (iterator adapters; covered by bounded Kani harnesses)",
            "struct RealVectorState { values: Vec<f64> } is prelude text of this unit",
            "rand's random_range(lo..hi) on f64 returns lo <= v < hi when lo < hi (stub rng_random_range_f64; its panic condition `empty range` is the precondition)",
